@@ -802,16 +802,19 @@ void incrTwoByte(ssl_t *ssl, unsigned char *c, int sending)
         if ((int) c[i] < 0xFF)
         {
             c[i]++;
-            if (sending)
-            {
-                if (c[i] > ssl->largestEpoch[i])
-                {
-                    ssl->largestEpoch[i] = c[i];
-                }
-            }
             break;
         }
         c[i] = 0;
+    }
+    if (sending)
+    {
+        /* Track the largest epoch used so far as a 16-bit quantity */
+        if (c[0] > ssl->largestEpoch[0] ||
+            (c[0] == ssl->largestEpoch[0] && c[1] > ssl->largestEpoch[1]))
+        {
+            ssl->largestEpoch[0] = c[0];
+            ssl->largestEpoch[1] = c[1];
+        }
     }
 }
 
